@@ -132,6 +132,12 @@ CLAIMED.update({
                 note="Skeleton shapes are enumerated, names are symbolic; attribute payloads are C06; custom formats are C05 (not applicable). Printer/Parser name tables are list-backed dictionaries (stub) so symbolic names need no hashing. Three defects repaired (Unicode hints, repeated _<n> suffixes, bb<n> block hints). Branches to a region's entry block are outside the catalogue (MLIR forbids them; the entry label is not printed)."),
 })
 
+CLAIMED.update({
+    "C07": dict(cat="bounded_symbolic", design="DESIGN.md §4 C07",
+                text="Unit-symbolic (M1) on input text: (lex) the real MLIRLexer on FULLY symbolic text of 1-2 (thorough 3) cells over all Unicode scalar values must end with tokens or ParseError; (parse) ten generic-format chunks covering the builtin attribute/type/region syntax are edited at EVERY position - one cell replaced by a symbolic cell, one inserted, or the text cut and a symbolic cell appended (about 2400 edit sites) - and parsed + verified by the real Parser: z3 decides for all values of the cell that every path ends with IR, ParseError or a verification diagnostic, any other exception being a violation; (cost) for 17 token-start prefixes x 12 character classes x n in {8,16} cells symbolic inside the class, the step count of the regex matcher that executes the lexer's own patterns (backtracking with sre's priority order over CPython's pattern parse tree) stays under a linear bound - super-linear backtracking is replayed by timing CPython's regex engine on growing instances.",
+                note="'Promptly' is decided on matcher steps, not wall-clock time. One symbolic cell per input (two adjacent ones in thorough); edits inside identifiers that the parser hashes (operation names, dictionary keys, type keywords) are partly inconclusive and reported as such. Eight defects repaired (exponential string regex, non-ASCII numerics, and six internal-error escapes of the parser)."),
+})
+
 NOT_APPLICABLE = {
     "C05": "custom assembly formats: the quantifier is over ~80 dialects' op definitions/format programs; no data dimension for a solver beyond what C04/C06 cover for leaves (DESIGN §5)",
     "C17": "pass x corpus-module cross product: deciding it means running each pair concretely; no symbolic dimension (DESIGN §5)",
